@@ -466,6 +466,8 @@ class Report:
     mod = importlib.import_module('sa.props.%s' % dep)
     sub = Report(dep, self.tier, self.model)
     mod.check(self.model, sub, self.tier)
+    if rules is None:   # every rule of the other checker's own (no field-type lint)
+      rules = [r for r in sub.rules if '.' not in r and not r.endswith('ASDL')]
     for r in rules:
       if r not in sub.rules:
         raise AnalysisError('%s has no rule %s (dependency of %s)' % (dep, r, self.prop))
